@@ -947,3 +947,114 @@ def run_c06(ctx):
 
 
 REGISTRY["C06"] = dict(module="Properties_C06", run=run_c06)
+
+
+# ------------------------------------------------------------------------------------------
+# C16: hooks and library-owned strings
+
+def hooks_in(root):
+    res = []
+
+    def rec(n):
+        for k in n.kids:
+            rec(k)
+        if n.hook != "-":
+            res.append(n.hook)
+    if root is not None:
+        rec(root)
+    return res
+
+
+def c16_oracle(script, rec):
+    """Exactly-once release evaluated on the implementation's own transcript: between two dumps the hooks that
+    disappeared from the tree are exactly the hooks the destructor was called on (as multisets), no hook is
+    released while its setting is still in the tree, and handed-out strings stay intact."""
+    bad = died(script, rec)
+    al = align(script, rec["impl"])
+    prev = None
+    dtor_on = False
+    pending = []      # ops since the previous dump: (op, dtor calls)
+    for op, out in al:
+        f = op.split(" ")
+        if op == "dump":
+            root, attrs, err, s = parse_dump(out)
+            if s and "strings=BAD" in s:
+                bad.append("a string handed out earlier changed while its setting still holds it")
+            cur = hooks_in(root)
+            if prev is not None and root is not None:
+                calls = [h for _, d in pending for h in d]
+                attached = [o.split(" ")[2] for o, _ in pending if o.startswith("hook ") and o.split(" ")[2] != "-"]
+                hookops = [o for o, _ in pending if o.startswith("hook ")]
+                if not hookops and all(not o.startswith(("init", "dtor")) for o, _ in pending):
+                    gone = list(prev)
+                    for h in cur:
+                        if h in gone:
+                            gone.remove(h)
+                    if dtor_on and sorted(gone) != sorted(calls):
+                        bad.append("after %s: hooks that left the tree %s, destructor called on %s" % (
+                            [o for o, _ in pending], gone, calls))
+                    if not dtor_on and calls:
+                        bad.append("destructor called although none is registered: %s" % calls)
+                    for h in calls:
+                        if h in cur and prev.count(h) <= cur.count(h):
+                            bad.append("destructor called on hook %s whose setting is still alive" % h)
+            prev = cur
+            pending = []
+        else:
+            calls = [l.split(" ")[2] for l in out if l.startswith("L dtor ")]
+            pending.append((op, calls))
+            if f[0] == "dtor":
+                dtor_on = f[1] != "0"
+            if f[0] == "init":
+                dtor_on = False
+                prev = None
+            if f[0] == "destroy":
+                # everything alive must have been released
+                if dtor_on and prev is not None and len(pending) == 1 and sorted(calls) != sorted(prev):
+                    bad.append("destroy released %s, hooks alive were %s" % (calls, prev))
+                prev = None
+    return bad
+
+
+def c16_cases(rng, n):
+    cases = []
+    for i in range(n):
+        h = gen_api.random_history(rng, rng.choice([20, 40, 80]), hooks=True, crossing=(i % 6 == 0), paths=(i % 3 == 0),
+                                   opts=rng.choice([0x16, 0x96, 0x96, 0x97]))
+        lines = h.splitlines()
+        # interleave string hand-outs: names and string values of random nodes are fetched and must stay intact
+        out = []
+        for l in lines:
+            out.append(l)
+            if l.startswith(("add ", "set s", "eset s")) and rng.random() < 0.5:
+                f = l.split(" ")
+                tgt = f[1] if f[0] == "add" else f[2]
+                out.append("name %s" % tgt)
+                out.append("get s %s" % tgt)
+                if f[0] == "eset":
+                    out.append("eget s %s 0" % tgt)
+        tail = rng.choice(["destroy", "clear\ndump\ndestroy", "reads %s\ndump\ndestroy" % hx(b"a = 1; b = \"x\";"),
+                           "reads %s\ndump\ndestroy" % hx(b"a = ;")])
+        cases.append("\n".join(out) + "\n" + tail + "\n")
+    return cases
+
+
+def run_c16(ctx):
+    res = Result()
+    rc = replay_cases(ctx)
+    cases = rc if rc is not None else c16_cases(ctx.rng, 500 if ctx.tier == "quick" else 5000)
+    res.rule = ("random histories of 20-80 calls with a destructor registered and hooks attached to random settings "
+                "(root, members, elements, nested aggregates), overrides on in 3/4 of them, removals by name / path / "
+                "index, clears, re-reads (ok and failing) and a final destroy; destructor call log compared with the "
+                "model after every call and, independently, with the hooks that left the dumped tree; names and string "
+                "values are fetched throughout and re-read after every later call (ASan build)")
+    res.distinct = distinct_count(cases)
+    res.distribution["ops"] = summarize_ops(cases)
+    res.samples = [cases[0][:1200]] if cases else []
+    correspond(ctx, res, cases, drop_prefixes=("E ",), oracle=c16_oracle,
+               known=lambda s, r, o: match_known("C16", s, r, o))
+    focus_search(ctx, res, c16_oracle, drop_prefixes=("E ",), hist_kwargs=dict(hooks=True))
+    return res
+
+
+REGISTRY["C16"] = dict(module="Properties_C16", run=run_c16)
